@@ -40,36 +40,59 @@ func genC16(kind int) func(g *Gen, tier string) *Case {
 		}
 		switch kind {
 		case 1:
-			ops = append(ops, fwd(1, TL(TNi(blNewParams), TNi(0), TNi(g.Pick(2, 5, 20)), TNi(g.Pick(100000, 10000, 300000)))))
+			n, pp := g.Pick(2, 5, 20), g.Pick(100000, 10000, 300000)
+			for inst := 0; inst < 2; inst++ { // instance 1: the same calls one after another
+				ops = append(ops, fwd(1, TL(TNi(blNewParams), TNi(inst), TNi(n), TNi(pp))))
+			}
 			for i := 0; i < g.Intn(3); i++ {
-				ops = append(ops, fwd(1, TL(TNi(blInsert), TNi(0), TBs(pool[2+i]), TNi(0))))
+				ops = append(ops, fwd(1, TL(TNi(blInsert), TNi(0), TBs(pool[2+i]), TNi(0))), fwd(1, TL(TNi(blInsert), TNi(1), TBs(pool[2+i]), TNi(0))))
 			}
 			ops = append(ops, TL(TNi(2), TL(TBs(x)), TL(TBs(y)), g.schedule()))
+			ops = append(ops, fwd(1, TL(TNi(blInsert), TNi(1), TBs(x), TNi(0))), fwd(1, TL(TNi(blInsert), TNi(1), TBs(y), TNi(0))))
 			for _, e := range pool {
-				ops = append(ops, fwd(1, TL(TNi(blLookup), TNi(0), TBs(e), TNi(0))))
+				ops = append(ops, fwd(1, TL(TNi(blLookup), TNi(0), TBs(e), TNi(0))), fwd(1, TL(TNi(blLookup), TNi(1), TBs(e), TNi(0))))
 			}
 		case 2:
-			ops = append(ops, fwd(2, TL(TNi(cmsNew), TNi(0), TNi(g.Pick(1, 2, 3)), TNi(g.Pick(1, 2, 5, 16)))))
-			for i := 0; i < g.Intn(4); i++ {
-				ops = append(ops, fwd(2, TL(TNi(cmsUpdate), TNi(0), TBs(pool[g.Intn(4)]), TNu(g.cmsCount()), TNi(0))))
+			rows, cols := g.Pick(1, 2, 3), g.Pick(1, 2, 5, 16)
+			for inst := 0; inst < 2; inst++ {
+				ops = append(ops, fwd(2, TL(TNi(cmsNew), TNi(inst), TNi(rows), TNi(cols))))
 			}
-			ops = append(ops, TL(TNi(2), TL(TBs(x), TNu(g.cmsCount())), TL(TBs(y), TNu(g.cmsCount())), g.schedule()))
+			for i := 0; i < g.Intn(4); i++ {
+				e, c := pool[g.Intn(4)], g.cmsCount()
+				ops = append(ops, fwd(2, TL(TNi(cmsUpdate), TNi(0), TBs(e), TNu(c), TNi(0))), fwd(2, TL(TNi(cmsUpdate), TNi(1), TBs(e), TNu(c), TNi(0))))
+			}
+			cx, cy := g.cmsCount(), g.cmsCount()
+			ops = append(ops, TL(TNi(2), TL(TBs(x), TNu(cx)), TL(TBs(y), TNu(cy)), g.schedule()))
+			ops = append(ops, fwd(2, TL(TNi(cmsUpdate), TNi(1), TBs(x), TNu(cx), TNi(0))), fwd(2, TL(TNi(cmsUpdate), TNi(1), TBs(y), TNu(cy), TNi(0))))
 			for _, e := range pool[:4] {
-				ops = append(ops, fwd(2, TL(TNi(cmsCount), TNi(0), TBs(e), TNi(0))))
+				ops = append(ops, fwd(2, TL(TNi(cmsCount), TNi(0), TBs(e), TNi(0))), fwd(2, TL(TNi(cmsCount), TNi(1), TBs(e), TNi(0))))
 			}
 		case 3:
-			ops = append(ops, fwd(3, TL(TNi(hlNew), TNi(0), TNu(128))))
+			// many elements share a register (index in [1,65]): pick x, y among a few dozen candidates
+			x, y = []byte(fmt.Sprintf("h%d", g.Intn(40))), []byte(fmt.Sprintf("h%d", g.Intn(40)))
+			for inst := 0; inst < 2; inst++ {
+				ops = append(ops, fwd(3, TL(TNi(hlNew), TNi(inst), TNu(128))))
+			}
 			for i := 0; i < g.Intn(4); i++ {
-				ops = append(ops, fwd(3, TL(TNi(hlUpdate), TNi(0), TBs(pool[2+g.Intn(3)]))))
+				e := []byte(fmt.Sprintf("h%d", g.Intn(40)))
+				ops = append(ops, fwd(3, TL(TNi(hlUpdate), TNi(0), TBs(e))), fwd(3, TL(TNi(hlUpdate), TNi(1), TBs(e))))
 			}
 			ops = append(ops, TL(TNi(2), TL(TBs(x)), TL(TBs(y)), g.schedule()))
-			ops = append(ops, fwd(3, TL(TNi(hlRegs), TNi(0))))
+			ops = append(ops, fwd(3, TL(TNi(hlUpdate), TNi(1), TBs(x))), fwd(3, TL(TNi(hlUpdate), TNi(1), TBs(y))))
+			ops = append(ops, fwd(3, TL(TNi(hlRegs), TNi(0))), fwd(3, TL(TNi(hlRegs), TNi(1))))
 		case 4:
-			size, bsize := uint64(g.Pick(1, 1, 2, 4)), uint64(g.Pick(1, 1, 2))
+			size, bsize := uint64(g.Pick(1, 1, 2, 4)), uint64(g.Pick(1, 1, 2, 4, 4))
 			ops = append(ops, fwd(4, TL(TNi(ckNew), TNi(0), TNu(size), TNu(bsize), TNu(2), TNu(0))))
+			var ins [][]byte
 			for i := 0; i < g.Intn(int(size*bsize)); i++ {
 				ops = append(ops, fwd(4, ckInsertOp(g, 0, pool[2+i%4], false)))
+				ins = append(ins, pool[2+i%4])
 			}
+			for len(ins) > 0 && g.Chance(0.5) { // removals leave emptied slots behind
+				ops = append(ops, fwd(4, TL(TNi(ckRemove), TNi(0), TBs(ins[0]))))
+				ins = ins[1:]
+			}
+			ops = append(ops, fwd(4, TL(TNi(ckState), TNi(0))))
 			ops = append(ops, TL(TNi(2), TL(TBs(x)), TL(TBs(y)), g.schedule()))
 			ops = append(ops, fwd(4, TL(TNi(ckState), TNi(0))), fwd(4, TL(TNi(ckLength), TNi(0))))
 			ops = append(ops, fwd(4, TL(TNi(ckLookup), TNi(0), TBs(x))), fwd(4, TL(TNi(ckLookup), TNi(0), TBs(y))))
@@ -99,6 +122,7 @@ func schedOpName(op Tok) string {
 func monitorSched(kind int) Monitor {
 	return func(ops, obs []Tok) []MonViolation {
 		var out []MonViolation
+		roomForBoth := "" // cuckoo: every bucket had >= 2 free slots before the pair (the known one-slot race cannot occur)
 		inserted := map[string]uint64{}
 		var total uint64
 		var k uint64
@@ -111,6 +135,36 @@ func monitorSched(kind int) Monitor {
 			case 0:
 				in := a[2].L
 				code := in[0].I()
+				// the sequential twin (instance 1) must end in the same observable state
+				if pairSeen && kind <= 3 && len(in) > 1 && in[1].Kind == 0 && in[1].U() == 1 && step > 0 {
+					prev := ops[step-1].L
+					if prev[0].I() == 0 && len(prev[2].L) > 1 && prev[2].L[1].String() == "0" && prev[2].L[0].String() == in[0].String() &&
+						TL(prev[2].L[2:]...).String() == TL(in[2:]...).String() && obs[step-1].String() != obs[step].String() &&
+						obs[step-1].String() != "(9)" && obs[step].String() != "(9)" {
+						out = append(out, MonViolation{[]string{"", "bloom", "cms", "hll"}[kind] + "/state-differs-from-sequential",
+							fmt.Sprintf("after the concurrent pair the structure answers %s, after the same calls one after another %s", trunc(obs[step-1].String()), trunc(obs[step].String())), step})
+					}
+				}
+				if len(in) > 1 && in[1].Kind == 0 && in[1].U() != 0 {
+					continue // bookkeeping below is for instance 0
+				}
+				if kind == 4 && code == ckState && !pairSeen {
+					if sn := parseSnap(o); sn != nil {
+						roomForBoth = "/room-for-both"
+						for _, b := range sn.buckets {
+							free := 0
+							for _, e := range b {
+								if e == "" {
+									free++
+								}
+							}
+							free += int(sn.sizes[0]) - len(b) // Redis lists only hold the slots used so far
+							if free < 2 {
+								roomForBoth = ""
+							}
+						}
+					}
+				}
 				switch kind {
 				case 1:
 					if code == blInsert {
@@ -137,7 +191,7 @@ func monitorSched(kind int) Monitor {
 						inserted[string(in[2].B)]++
 					}
 					if code == ckLookup && pairSeen && isOk(o) && okPayload(o).U() == 0 && inserted[string(in[2].B)] > 0 {
-						out = append(out, MonViolation{"cuckoo/acknowledged-insert-not-findable",
+						out = append(out, MonViolation{"cuckoo/acknowledged-insert-not-findable" + roomForBoth,
 							fmt.Sprintf("insert of %x reported success but the element is not findable", in[2].B), step})
 					}
 					if code == ckState && pairSeen {
@@ -151,7 +205,7 @@ func monitorSched(kind int) Monitor {
 								}
 							}
 							if sn.length != stored {
-								out = append(out, MonViolation{"cuckoo/length-differs-from-stored",
+								out = append(out, MonViolation{"cuckoo/length-differs-from-stored" + roomForBoth,
 									fmt.Sprintf("Length=%d but %d entries stored after concurrent inserts", sn.length, stored), step})
 							}
 						}
